@@ -117,8 +117,15 @@ HasType(r, ty) ==
     [] ty.t = "Maybe" -> r.k = "np" \/ HasType(r, ty.a[1])
     [] ty.t = "Class" -> r.k = "model" /\ r.cls = ty.n
     [] OTHER -> FALSE
+(* the quantifier of C19 restricts defaults to ones valid for their schema *)
+RECURSIVE AllDefaultsValid(_)
+AllDefaultsValid(S) ==
+  IF IsBoolSchema(S) THEN TRUE
+  ELSE /\ (Has(S, "default") => Allowed(S, S.default) = {TRUE})
+       /\ \A i \in 1..Len(SubSchemas(S)) : AllDefaultsValid(SubSchemas(S)[i])
 C19_Clause(e) ==
-  IF e.ty.t = "?" THEN "annotation-not-a-type"
+  IF ~AllDefaultsValid(e.doc) THEN "ok"
+  ELSE IF e.ty.t = "?" THEN "annotation-not-a-type"
   ELSE IF \E i \in 1..Len(e.outs) : ~HasType(e.outs[i], e.ty) THEN "value-not-of-annotated-type"
   ELSE IF e.ty.t # "Maybe" /\ ~e.reqd /\ e.ty.t # "Any" THEN "always-present-but-optional"
   ELSE "ok"
